@@ -37,6 +37,7 @@ func verifPosAt(src string, off int) (hcl.Pos, bool) {
 
 func verifTwoDecoders(i int) (*PathDecoder, *PathDecoder, verifSeed) {
 	s := verifSeedList()[i]
+	verifShiftSeedLen = len(s.src)
 	A := verifParseHCL(s.src, fa)
 	B := verifStretch(s.src, fb, 0, 2)
 	mk := func(name string, f *hcl.File) *PathDecoder {
@@ -50,6 +51,20 @@ func verifTwoDecoders(i int) (*PathDecoder, *PathDecoder, verifSeed) {
 }
 
 // verifMoved: rb is the image of ra (file names aside).
+var verifShiftSeedLen int
+
+// verifMovedSubject: like verifMoved, but a diagnostic whose subject is the top-level
+// body (the whole file) keeps starting at the first byte.
+func verifMovedSubject(ra, rb hcl.Range) bool {
+	if ra.Start.Byte == 0 && ra.End.Byte == verifShiftSeedLen && verifShiftSeedLen > 0 {
+		// the range of the whole file (top-level body): it still starts at the first byte
+		e := verifImagePos(fb, ra.End, true)
+		return verifAnd(verifAnd(rb.Start.Line == 1, verifAnd(rb.Start.Column == 1, rb.Start.Byte == 0)),
+			verifAnd(rb.End.Line == e.Line, verifAnd(rb.End.Column == e.Column, rb.End.Byte == e.Byte)))
+	}
+	return verifMoved(ra, rb)
+}
+
 func verifMoved(ra, rb hcl.Range) bool {
 	s := verifImagePos(fb, ra.Start, false)
 	e := verifImagePos(fb, ra.End, ra.End.Byte > ra.Start.Byte)
@@ -136,7 +151,7 @@ func VerifP_C18_Shift_File(i int) {
 		if k < len(vb) {
 			verifAssert(va[k].Summary == vb[k].Summary, "C18:diagnostic-summary-same")
 			if va[k].Subject != nil && vb[k].Subject != nil {
-				verifAssert(verifMoved(*va[k].Subject, *vb[k].Subject), "C18:diagnostic-subject-moved")
+				verifAssert(verifMovedSubject(*va[k].Subject, *vb[k].Subject), "C18:diagnostic-subject-moved")
 			}
 		}
 	}
